@@ -152,11 +152,12 @@ theorem lineLoop_eol (env : Env) (fuel : Nat) (esc : Bool) (st st' : St) (line :
     (s : Inl.Scan) (hp : st.rd.peekLine = .ok ((some line, seg), st.rd)) (hne : line.isEmpty = false)
     (hscan : scan env (line.take (classify line).1) 0 { st := st, n := 0, sp := st.rd.pos, escaped := esc } =
       .ok (.eol s))
-    (heol : endOfLine (classify line).2 st.rd.line s = .ok st') :
-    lineLoop env (fuel + 1) esc st = lineLoop env fuel s.escaped st' := by
+    (heol : endOfLine (classify line).2 st.rd.line s = .ok st') (hesc : s.escaped = false) :
+    lineLoop env (fuel + 1) esc st = lineLoop env fuel false st' := by
+  -- `hesc` makes the statement independent of whether the model passes `s.escaped` or `false` to the next line
   rw [lineLoop]
   simp only [bind, Except.bind, hp, hne, BlockReader.position, hscan, heol]
-  simp
+  first | (simp; done) | (simp [hesc]; done)
 
 theorem lineLoop_none (env : Env) (fuel : Nat) (esc : Bool) (st : St) (seg : Segment)
     (hp : st.rd.peekLine = .ok ((none, seg), st.rd)) :
@@ -266,7 +267,7 @@ theorem line_step (env : Env) (henv : env.escapedSpace = false) (src : Bytes) (s
   have heol := endOfLine_mid src segs L j p l l0 c seg' ks nid bs false hl hs hsub' (by omega) hnext
   refine lineLoop_eol env fuel false _ _ (l ++ [10]) { start := p, stop := (p : Int) + l.length + 1 }
     { st := { rd := rdAt src segs L j { start := p, stop := (p : Int) + l.length + 1 } p, kids := ks, nextId := nid, bottoms := bs },
-      n := l.length, sp := { start := p, stop := (p : Int) + l.length + 1 }, escaped := false } ?_ ?_ ?_ ?_
+      n := l.length, sp := { start := p, stop := (p : Int) + l.length + 1 }, escaped := false } ?_ ?_ ?_ ?_ rfl
   · simp only [BlockReader.peekLine, hlive, if_true, bind, Except.bind, pure, Except.pure]
     simp only [rdAt, value_plain, hv]
   · simp
@@ -360,7 +361,7 @@ theorem last_step (env : Env) (henv : env.escapedSpace = false) (src : Bytes) (s
   have heol := endOfLine_last src segs j p l l0 c ks nid bs false hl hs hsub hlen hj
   rw [lineLoop_eol env (fuel + 1) false _ _ l { start := p, stop := (p : Int) + l.length }
     { st := { rd := rdAt src segs ((p : Int) + l.length) j { start := p, stop := (p : Int) + l.length } p, kids := ks, nextId := nid, bottoms := bs },
-      n := l.length, sp := { start := p, stop := (p : Int) + l.length }, escaped := false } ?_ ?_ ?_ ?_]
+      n := l.length, sp := { start := p, stop := (p : Int) + l.length }, escaped := false } ?_ ?_ ?_ ?_ rfl]
   · apply lineLoop_none env fuel false _ { start := (p : Int) + l.length, stop := (p : Int) + l.length }
     have hnl : (rdAt src segs ((p : Int) + l.length) (j + 1) { start := (p : Int) + l.length, stop := (p : Int) + l.length } ((p : Int) + l.length)).live = false := by
       have : ¬ ((j : Int) + 1 < (segs.length : Int)) := by omega
